@@ -4,7 +4,7 @@
    adjudicated per run by the C01 admission rule (Properties_C01), and "a later solve can only keep or improve" is the
    solution-set theorem C04_best_never_worse (Properties_C04). *)
 From Coq Require Import List ZArith Bool Arith.
-From OmplV Require Import PisModel PisProofs LedgerModel LedgerProofs RrtModel RrtProofs RrtConnectModel RrtConnectProofs.
+From OmplV Require Import PisModel PisProofs LedgerModel LedgerProofs RrtModel RrtProofs RrtConnectModel RrtConnectProofs LpaModel LpaProofs.
 Import ListNotations.
 
 (* a fresh query hands out every valid in-bounds start exactly once, in order, then reports that none is left *)
@@ -71,6 +71,13 @@ Theorem C03_rrtconnect_resumed_solves_report_real_paths :
   RrtConnectProofs.TInv St mvS mvG true starts (c_ts St D (fst (rc_solves St D dist dlt steer mvS mvG gdist goals dflt fuel starts calls))) /\
   RrtConnectProofs.TInv St mvS mvG false goals (c_tg St D (fst (rc_solves St D dist dlt steer mvS mvG gdist goals dflt fuel starts calls))).
 Proof. exact rc_solves_spec. Qed.
+(* LazyLBTRRT's incremental shortest-path structure (LPAstarOnGraph, LpaModel.v): with the repaired queue-removal rule, after EVERY
+   history of edge insertions, removals and shortest-path computations (any graph, any heuristic), a node's isInQueue flag is true
+   exactly when the queue holds it, it holds it once, and node identities are unique *)
+Theorem C03_lpastar_queue_bookkeeping_after_every_history :
+  forall (hfun : nat -> Z) src tgt fuel, src <> tgt -> forall ops,
+  BInv (fold_left (fun s o => fst (lpa_step false hfun fuel s o)) ops (lpa_init hfun src tgt)).
+Proof. exact lpa_history_inv. Qed.
 Theorem C03_admission_sound : forall r, admissible r = true ->
   (is_solution_status (r_status r) = true -> C01_solution r) /\
   (is_solution_status (r_status r) = false -> r_paths_after r = r_paths_before r).
@@ -85,6 +92,7 @@ Print Assumptions C03_after_clear_only_current_starts.
 Print Assumptions C03_goal_samples_bounded.
 Print Assumptions C03_rrt_family_resumed_solves_report_real_paths.
 Print Assumptions C03_rrtconnect_resumed_solves_report_real_paths.
+Print Assumptions C03_lpastar_queue_bookkeeping_after_every_history.
 Print Assumptions C03_admission_sound.
 
 Example C03_nonvacuous :
@@ -104,3 +112,27 @@ Example C03_rrt_resume_nonvacuous :
   = ([(0%Z, None); (3%Z, Some 0%nat); (2%Z, Some 1%nat); (-3, Some 0%nat)%Z; (-6, Some 3%nat)%Z; (6%Z, Some 1%nat); (-8, Some 4%nat)%Z],
      [Some ([0; 3; 2]%Z, true, 10%Z); Some ([0; -3; -6; -8]%Z, false, 0%Z)]).
 Proof. vm_compute. reflexivity. Qed.
+
+(* the pinned rule (std::multiset::erase(key): every node with an equivalent stored key leaves the queue, only one flag is cleared)
+   refuted: after five operations node 2 is inconsistent (g = inf, rhs = 1), flagged as queued, and not in the queue; the repaired
+   rule keeps it *)
+Definition lpa_h0 (_ : nat) : Z := 0%Z.
+Definition lpa_run (erase_all : bool) (src tgt : nat) (ops : list lop) :=
+  fold_left (fun acc o => let '(s, r) := lpa_step erase_all lpa_h0 50 (fst acc) o in (s, snd acc ++ [r])) ops (lpa_init lpa_h0 src tgt, []).
+Definition lpa_lose : list lop := [LIns 0 3 9; LSp; LIns 0 1 1; LIns 0 2 1; LRem 0 1]%nat%Z.
+Example C03_lpastar_pinned_rule_loses_nodes_refuted :
+  (let s := fst (lpa_run true 0 3 lpa_lose) in (l_queue s, map (fun n => (n_id n, n_g n, n_r n, n_inq n)) (l_nodes s)))
+    = ([], [(0%nat, Some 0%Z, Some 0%Z, false); (3%nat, Some 9%Z, Some 9%Z, false); (1%nat, None, None, false); (2%nat, None, Some 1%Z, true)]) /\
+  l_queue (fst (lpa_run false 0 3 lpa_lose)) = [2%nat].
+Proof. vm_compute. split; reflexivity. Qed.
+(* and an eleven-operation history after which computeShortestPath reports cost 2 for the target and then follows the parent
+   pointers 6 -> 4 -> 1 -> 4 -> ... without end (the walk does not finish within 50 steps on 6 nodes); with the repaired rule the same
+   history ends with every node but the source at infinity and an empty path *)
+Definition lpa_hang : list lop :=
+  [LIns 5 6 3; LIns 4 1 1; LRem 5 6; LSp; LIns 0 4 1; LSp; LRem 0 4; LIns 2 0 1; LRem 0 2; LIns 4 6 1; LSp]%nat%Z.
+Example C03_lpastar_pinned_rule_parent_cycle_refuted :
+  (let '(s, r) := lpa_run true 0 6 lpa_hang in
+   (last r None, map (fun n => (n_id n, n_par n)) (filter (fun n => Nat.eqb (n_id n) 4 || Nat.eqb (n_id n) 1 || Nat.eqb (n_id n) 6) (l_nodes s))))
+    = (Some (Some 2%Z, None), [(6%nat, Some 4%nat); (4%nat, Some 1%nat); (1%nat, Some 4%nat)]) /\
+  last (snd (lpa_run false 0 6 lpa_hang)) None = Some (None, Some []).
+Proof. vm_compute. split; reflexivity. Qed.
